@@ -62,6 +62,7 @@ if spec.get('version') is not None: kw['fjm_version'] = FJMVersion(spec['version
 if spec.get('no_stl'): kw['use_stl'] = False
 if spec.get('debug'): kw['debugging_file_path'] = Path(spec['debug'])
 flipjump.assemble([Path(p) for p in spec['files']], Path(spec['out']), warning_as_errors=bool(spec.get('werror')), print_time=False, **kw)
+sys.stderr.write('FJVERIF-ASSEMBLED\n')
 if spec.get('run'):
     if spec.get('prelude'):
         # an earlier API run in the same process (default device, leaves a partial output byte behind): a later API call must not
@@ -356,8 +357,9 @@ class Judge:
             rc_a, so_a, se_a = self.cli(['-s', '-o', str(d / 'one_step.fjm')] + common + src_args, cwd, stdin)
             self.count('monitor_evaluations')
             self.count('refusals_compared')
-            if rc_c == 0 or rc_a == 0 or b'FJVERIF-ONESTEP' in se_c:
-                self.bad('routes-disagree-on-acceptance', f'{case["program"]} {opts}: fj --asm refuses it; one-step fj rc={rc_a}, API rc={rc_c}', case)
+            if rc_c == 0 or rc_a == 0 or b'FJVERIF-ONESTEP' in se_c or b'FJVERIF-ASSEMBLED' in se_c:
+                self.bad('routes-disagree-on-acceptance', f'{case["program"]} {opts}: fj --asm refuses it ({se.decode("latin-1")[-120:]!r}); one-step fj '
+                         f'rc={rc_a}, API rc={rc_c}, flipjump.assemble() {"succeeded" if b"FJVERIF-ASSEMBLED" in se_c else "failed"}', case)
             if runnable and opts['version'] is None:
                 # the one-step flow without -o assembles with its own default version (1): acceptance must not depend on that
                 rc_t, so_t, se_t = self.cli(['-s'] + common + src_args, cwd, stdin)
@@ -495,6 +497,19 @@ def run_shard(spec: Dict[str, Any], journal: Any) -> Dict[str, Any]:
             judge.one_case(rng, {'name': 'warning-bearing-hello', 'files': [str(warn_dir / 'warning_hello.fj')], 'width': 64, 'stl': False,
                                  'input': None, 'warns': True}, runnable=True)
             judge.count('warning_bearing_cases')
+    if hello.exists():
+        # one program spread over many files with long names (the command builds its temporary directory's name from them)
+        many_dir = workdir / 'many_files'
+        many_dir.mkdir(exist_ok=True)
+        first = many_dir / ('a_first_source_file_with_a_rather_long_name_' + 'x' * 40 + '.fj')
+        first.write_text(hello.read_text())
+        files = [str(first)]
+        for k in range(rng.choice([6, 12])):
+            extra = many_dir / (f'another_source_file_with_a_rather_long_name_number_{k:03d}_' + 'y' * 30 + '.fj')
+            extra.write_text(f'// part {k}: nothing but a comment\n')
+            files.append(str(extra))
+        judge.one_case(rng, {'name': 'many-long-file-names', 'files': files, 'width': 64, 'stl': False, 'input': None}, runnable=True)
+        judge.count('many_long_file_name_cases')
     layout_dir = workdir / 'layouts'
     layout_dir.mkdir(exist_ok=True)
     for k in range(2):
